@@ -80,6 +80,20 @@ def handle : Drv.Handler
     -- mode "kv": keys and values are ids (DenseNatMap<Id,Id>); "k": values are plain (no-op rewrite)
     let plan ← plan.nats?; let m ← m.nats?; let mode ← mode.str?
     pure (match DNM.rewriteByPlan plan (mode == "kv") m with | none => "panic" | some m' => natsStr m')
+  -- oracle: the implementation's rewritten map `r` against the LAW (C20_dnm_rewrite): for a plan that permutes exactly the
+  -- map's keys (and, for id values, contains every value) the value of key k, rewritten, sits at key plan[k]
+  | "o-dnm-rewrite", [plan, m, mode, r] => do
+    let plan ← plan.nats?; let m ← m.nats?; let mode ← mode.str?
+    let applicable := plan.length == m.length && (mode != "kv" || m.all (· < plan.length))
+    if !applicable then pure "ok" else
+    match r with
+    | .atom "panic" => pure "panicked-on-a-plan-that-permutes-the-keys"
+    | r => do
+      let res ← r.nats?
+      let pv := fun v => if mode == "kv" then plan.getD v v else v
+      pure (if res.length != m.length then "wrong-length"
+        else if (List.range m.length).all (fun k => res[plan.getD k k]? == (m[k]?).map pv) then "ok"
+        else "value-not-moved-to-the-rewritten-key")
   -- oracle: impl's from-pairs result `r` against the declarative reading (total map / gaps rejected)
   | "o-dnm-from", [ps, r] => do
     let ps ← ps.listOf? (SExp.pairOf? SExp.nat? SExp.nat?)
